@@ -19,7 +19,8 @@ From V.C14 Require Model Proofs.
 From V.C15 Require Model Engine.
 From V.C17 Require Model Proofs Timed Ingress.
 From V.gen Require C16Tables.
-From V.C16 Require Import Model Proofs Obl Bound Chan Exec Time Compose Comp EngineRef HandleModel Handle.
+From V.Ts Require Model Proofs Answers.
+From V.C16 Require Import Model Proofs Obl Bound Chan Exec Time Compose Comp CompTime EngineRef HandleModel Handle Quorum Link.
 Import ListNotations.
 Open Scope N_scope.
 
@@ -784,6 +785,131 @@ Theorem C16_tables_in_sync :
     GETRECORD_ROW.
 Proof. exact tables_in_sync. Qed.
 Print Assumptions C16_tables_in_sync.
+
+(* ---- the quorum clause, variant by variant (Quorum.v) ---- *)
+
+(* for every put / announce variant — put_record, put_record_to_peers with either value of
+   update_local_store, start_providing, and the refresh re-announcement started by the store — the command
+   the loop performs carries the quorum the user asked for (a refresh: the quorum stored with the key), so
+   `find_quorum` in C16_quorum_honest / C16_compose_quorum_honest is THE requested quorum *)
+Theorem C16_quorum_variants :
+  forall wc w q,
+  (forall qr rk len e t,
+     quorum_of_ev q (fst (fst (elab wc w (UCmd q (UCPut qr rk len e) t)))) = Some qr) /\
+  (forall qr rk t,
+     quorum_of_ev q (fst (fst (elab wc w (UCmd q (UCProv qr rk) t)))) = Some qr) /\
+  (forall qr rk len pb e upd given,
+     quorum_of_ev q (fst (fst (elab wc w (UPutToPeers q qr rk len pb e upd given)))) = Some qr) /\
+  (forall rk wait t ks' qc,
+     fire1 wc (age (w_ks w) wait) rk (lrank wc t) = Some (ks', Some qc) ->
+     quorum_of_ev q (fst (fst (elab wc w (UFire q rk wait t)))) = Some (qdecode qc)).
+Proof. exact elab_quorum. Qed.
+Print Assumptions C16_quorum_variants.
+
+(* enum Quorum (coq/gen/C16Tables.v: All, One, N(NonZeroUsize)): what "the requested quorum" is for a target
+   list of `len` peers.  One: 1.  All: every target (1 when there is none — never reached, the operation
+   fails).  N(n): n when there are at least n targets; with fewer targets every one of them (the clamp of
+   PutToTargetPeersContext::new, deliberate and commented in the source).  N(0) cannot be written
+   (NonZeroUsize) and a stored quorum never decodes to it: at least one peer is always required *)
+Theorem C16_quorum_clamp :
+  (forall h len,
+     1 <= clamp (q_of h) len /\
+     match h with
+     | HOne => clamp (q_of h) len = 1
+     | HAll => clamp (q_of h) len = N.max len 1
+     | HN n => (Npos n <= len -> clamp (q_of h) len = Npos n) /\
+               (1 <= len -> len <= Npos n -> clamp (q_of h) len = len) /\
+               (len = 0 -> clamp (q_of h) len = 1)
+     end) /\
+  (forall h, q_of h <> QN 0) /\ (forall c, qdecode c <> QN 0).
+Proof. split; [exact clamp_api |]. split; [exact q_of_nonzero | exact qdecode_nonzero]. Qed.
+Print Assumptions C16_quorum_clamp.
+
+(* with a quorum the API can express, a success needs at least ONE target peer that was sent the data: in
+   particular no success with an empty target list *)
+Theorem C16_success_needs_a_send :
+  forall g m es q,
+  fresh_ids [] es -> cmds_ok g es ->
+  (forall qr, find_quorum q es = Some qr -> qr <> QN 0) ->
+  let outs := snd (run g (st0 m) es) in
+  In (OPutSuccess q) outs \/ In (OProvSuccess q) outs ->
+  exists targets p, In (OTrack q targets) outs /\ In p targets /\ In (q, p) (put_sends g (st0 m) es).
+Proof. exact success_needs_a_send. Qed.
+Print Assumptions C16_success_needs_a_send.
+
+(* the clause for every history that goes through the KademliaHandle — PutRecord, PutRecordToPeers (both
+   values of update_local_store), StartProviding, the refresh re-announcements; Quorum::One / N / All —
+   with no assumption on ids or quorums left (`ops_ok`: put_record_to_peers is not given a peer twice) *)
+Theorem C16_handle_quorum_honest :
+  forall wc m cap ops q,
+  keys_ok wc -> ops_ok (wc_g wc) ops ->
+  let us := snd (fst (hrun (h0 cap) ops)) in
+  let W0 := w0 wc m (length (lkey wc)) in
+  let outs := snd (crun wc W0 us) in
+  let es := elabs wc W0 us in
+  In (OPutSuccess q) outs \/ In (OProvSuccess q) outs ->
+  exists targets qr S,
+    find_quorum q es = Some qr /\ qr <> QN 0 /\ In (OTrack q targets) outs /\ NoDup S /\
+    clamp qr (N.of_nat (length targets)) <= N.of_nat (length S) /\ (1 <= length S)%nat /\
+    (forall p, In p S -> In (q, p) (put_sends (wc_g wc) (st0 m) es) /\ In p targets).
+Proof. exact handle_quorum_honest. Qed.
+Print Assumptions C16_handle_quorum_honest.
+
+(* ---- "within bounded time", for composed histories (CompTime.v) ---- *)
+Theorem C16_compose_bounded_time :
+  forall wc m D us0 ua u ub,
+  1 <= g_alpha (wc_g wc) ->
+  let W0 := w0 wc m (length (lkey wc)) in
+  let w1 := fst (crun wc W0 us0) in
+  let es1 := elabs wc w1 (ua ++ u :: ub) in
+  is_tick (fst (fst (elab wc (fst (crun wc w1 ua)) u))) = false ->
+  fair_run (wc_g wc) (w_st w1) es1 ->
+  timed D (wc_g wc) (w_st w1) (restamp (now (w_st w1)) [] (okeys (w_st w1))) es1 ->
+  now (w_st (fst (crun wc w1 ua))) <= now (w_st w1) + D * N.of_nat (S (length (work (elabs wc w1 ua)))).
+Proof. exact c_bounded_time. Qed.
+Print Assumptions C16_compose_bounded_time.
+
+Theorem C16_compose_bounded_time_budget :
+  forall wc m D U us0 ua u ub,
+  keys_ok wc -> 1 <= g_alpha (wc_g wc) ->
+  (forall p, In p (UNKNOWN :: map fst (wc_keys wc)) -> In p U) ->
+  ufresh [] (us0 ++ ua ++ u :: ub) -> Forall (ucmd_ok (wc_g wc)) us0 -> Forall (uev_in_U U) (us0 ++ ua ++ u :: ub) ->
+  let W0 := w0 wc m (length (lkey wc)) in
+  let w1 := fst (crun wc W0 us0) in
+  let es1 := elabs wc w1 (ua ++ u :: ub) in
+  is_tick (fst (fst (elab wc (fst (crun wc w1 ua)) u))) = false ->
+  fair_run (wc_g wc) (w_st w1) es1 ->
+  timed D (wc_g wc) (w_st w1) (restamp (now (w_st w1)) [] (okeys (w_st w1))) es1 ->
+  now (w_st (fst (crun wc w1 ua))) <= now (w_st w1) + D * N.of_nat (budget (length U) (wc_g wc) (elabs wc W0 us0)).
+Proof. exact c_bounded_time_budget. Qed.
+Print Assumptions C16_compose_bounded_time_budget.
+
+(* ---- the layers below (Link.v) ---- *)
+
+(* the assumption `feasible` (C16_dischargeable: the service reports SubstreamOpened{Outbound(id)} for the
+   peer the substream was requested from) is a THEOREM of the TransportService model of C08 / C09 (coq/Ts):
+   along every history of the service from its initial state, with `m` the pending_substreams map kept as
+   kademlia/mod.rs keeps it (`kad_track`: inserted when open_substream(p) returns Ok(id), removed when the
+   answer for id arrives), every outbound SubstreamOpened names the peer recorded for its id, or the id is
+   not pending any more — which is `feasible` for the event EOpened p id *)
+Theorem C16_link_service_feasible :
+  (forall ka T n0 tr,
+     V.Ts.Proofs.nowrap (V.Ts.Model.init ka T n0) tr -> feasible_along (V.Ts.Model.init ka T n0) [] tr) /\
+  (forall m os s16 p id,
+     step_feasible m os -> psub s16 = m -> In (V.Ts.Model.OSub p (Some id)) os -> feasible s16 (EOpened p id)).
+Proof. split; [exact service_answers_feasible | exact step_feasible_is_feasible]. Qed.
+Print Assumptions C16_link_service_feasible.
+
+(* dials (C05_sys_progress / C05_sysT_progress / C05_tr_progress_dial: a dial the manager accepted is
+   answered by ConnectionEstablished or DialFailure): whenever an action is queued in pending_dials for p,
+   both answers are productive events of the glue model — neither is refused or lost *)
+Theorem C16_link_dial_answers :
+  forall s p a acts,
+  aget p (pdial s) = Some (a :: acts) ->
+  productive s (EDialFail p) /\
+  (aget p (conn s) = None -> aget p (peers s) = None -> forall alive, productive s (EEstablished p alive)).
+Proof. exact dial_answers_productive. Qed.
+Print Assumptions C16_link_dial_answers.
 
 (* the shipped parallelism factor and executor timeouts satisfy what is assumed above *)
 Theorem C16_default_config :
